@@ -410,8 +410,59 @@ def gen_case(rng, force_equal=False):
     return d, rng.randint(2, 3)
 
 
+def check_same_seed_edit():
+    """the random generator put into the same state before two generations in one process, a recipe's amounts (inside a recipe block and inside a
+    brace expression) edited in between: the second site shows the edited amounts, exactly as a generation with another seed and cold caches does"""
+    out = []
+    scratch = gen_site.scratch_root()
+    try:
+        src = scratch / "book"
+        (src / "sub").mkdir(parents=True)
+        text = "# Soup for 2\n\nAdd {2} eggs.\n\n    %s leeks\n    boil(leeks, {3} l water)\n"
+        (src / "soup.md").write_text(text % "100g")
+        (src / "sub" / "broth.md").write_text("# Broth\n\n    1 kg bones\n")
+        for seed in (1234, 0):
+            pyrandom.seed(seed)
+            generate_static_site(src, scratch / ("first%d" % seed), 4)
+            (src / "soup.md").write_text((text % "250g").replace("{2}", "{5}").replace("{3}", "{7}"))
+            pyrandom.seed(seed)
+            generate_static_site(src, scratch / ("second%d" % seed), 4)
+            recipe_directory._cached_compile_markdown.cache_clear()
+            pyrandom.seed(seed + 99991)
+            generate_static_site(src, scratch / ("fresh%d" % seed), 4)
+            a, b = digest(scratch / ("second%d" % seed)), digest(scratch / ("fresh%d" % seed))
+            if a != b:
+                out.append(("C17:edit-not-reflected-in-second-generation", "same random state before both generations: %r differ from a generation with cold caches" % sorted(f for f in set(a) | set(b) if a.get(f) != b.get(f))[:4]))
+            page = (scratch / ("second%d" % seed) / "serves2" / "soup.html").read_text()
+            if "250" not in page or "100" in page:
+                out.append(("C17:edit-not-reflected-in-second-generation", "/serves2/soup.html still shows the amounts written before the edit"))
+            (src / "soup.md").write_text(text % "100g")
+        return out[:2]
+    except Exception as e:  # noqa
+        return out + [("C17:regeneration-after-edit-raises", "%s: %s" % (type(e).__name__, str(e)[:100]))]
+    finally:
+        shutil.rmtree(scratch, ignore_errors=True)
+
+
+# two files that become one page (names differing only in the extension's letter case - the recorded finding of C15), with equal titles and
+# different contents: which of them the page shows must not depend on the listing order either
+TWIN_TREE = dict(name="root", readme=None, assets=[], subdirs=[],
+                 recipes=[dict(file="soup.md", title="Soup", servings=2, links=[], raw="# Soup for 2\n\n    1 kg leeks\n"),
+                          dict(file="soup.MD", title="Soup", servings=2, links=[], raw="# Soup for 2\n\n    2 kg tomatoes\n"),
+                          dict(file="other.md", title="Other", servings=2, links=[])])
+
+
 def oracle(run):
     rng = run.rng
+    run.case(("same-seed-edit",), True, kind="same-seed-edit")
+    for sig, detail in check_same_seed_edit():
+        run.violate(sig, detail, {"same_seed_edit": True})
+    run.case(("oracle", gen_site.tree_sexp(TWIN_TREE), 2), True, kind="site-x3")
+    seen = set()
+    for sig, detail in check_tree(TWIN_TREE, 2, 5):
+        if sig not in seen:
+            seen.add(sig)
+            run.violate(sig, detail, {"site": c14.d_json(TWIN_TREE), "M": 2})
     for i in range(run.budget(14, 300)):
         d, M = gen_case(rng, force_equal=('case' if i % 7 == 0 else (i % 7 == 3)))
         run.case(("oracle", gen_site.tree_sexp(d), M), True, kind="site-x3")
@@ -451,6 +502,11 @@ def oracle(run):
 
 def replay(run, obj):
     r = obj["replay"]
+    if r.get("same_seed_edit"):
+        res = check_same_seed_edit()
+        for x in res:
+            print(*x)
+        return bool(res)
     if r.get("history"):
         res = check_history(c14.d_unjson(r["site"]), r["M"], 0)
     elif r.get("fresh"):
